@@ -405,6 +405,8 @@ func c17Windows(valid []byte, widths []int, vals []uint64, name string, rng *ran
 	}
 }
 
+var c17ASCII = []uint64{'-', '+', ' ', '\t', '\n', '\r', '0', '9', 'a', 'f', 'g', 'F', 'G', 'x', 'X', '.', ',', ':', ';', '/', '"', '\'', '\\', '#', '%', '_', '{', '[', 0x7F}
+
 // c17Mutants enumerates the mutants of one valid encoding.
 func c17Mutants(valid []byte, mut string, rng *rand.Rand, budget int, f func(in []byte, label string) bool) {
 	n := len(valid)
@@ -434,6 +436,9 @@ func c17Mutants(valid []byte, mut string, rng *rand.Rand, budget int, f func(in 
 	case "index":
 		// every 1- and 2-byte window set to every small value: tags, field numbers, indices into short tables
 		c17Windows(valid, []int{1, 2}, c17Small, "index", rng, budget, f)
+	case "ascii":
+		// every byte replaced by the characters text parsers trip over: signs, blanks, separators, hex / non-hex letters
+		c17Windows(valid, []int{1}, c17ASCII, "ascii", rng, budget, f)
 	case "field2":
 		// two fields at once: a forged leading count together with every later 16-bit window at a boundary value
 		cnt := 0
@@ -890,10 +895,13 @@ func init() {
 			}
 			for _, e := range entries {
 				for corpus := 0; corpus < 3; corpus++ {
-					for _, m := range []string{"truncate", "bitflip", "field", "index", "splice"} {
+					for _, m := range []string{"truncate", "bitflip", "field", "index", "ascii", "splice"} {
 						b := budget
 						if m == "splice" {
 							b = budget / 4
+						}
+						if m == "ascii" {
+							b = budget * 12 // one width only, microseconds each: small text encodings are covered completely
 						}
 						l.Add(e, c17Params{Entry: e, Corpus: corpus, Mut: m, Budget: b}, 0)
 					}
